@@ -590,6 +590,8 @@ def _rewrite_ref(plan, parent, v, kind, pure):
     bound = _bind_call(plan.nd.node, parent, skip_first=plan.n_is_method)
     if bound is None:
         return None
+    if plan.n_is_method and not plan.k_is_method and recv_hint is not None and _params(plan.nd.node):
+        bound[_params(plan.nd.node)[0]] = recv_hint      # method turned back into a function: the receiver is the first argument again
     kc = plan.k_call(bound, recv_hint, parent)
     return None if kc is None else ("call", kc)
 
@@ -1066,6 +1068,14 @@ def restore_nested_names(m, sources: Dict[str, dict]) -> None:
             # free variables of a closure are names of the enclosing function: compared as globals (same name)
             if u.u_block(kbody, nbody) and all(u.map.get(p, p) == p for p in u.kparams):
                 cands.append(d)
+        how = "bodies unify"
+        if not cands:
+            # edited on the way: the only new nested function of the enclosing function that is clearly similar keeps its own body under the reference name
+            sim = sorted(((_similarity(kfn, d.node), d) for d in m.defs if d.kind == "nested" and d.parent is outer and d.qual not in sources
+                          and type(d.node) is type(kfn)), key=lambda t: -t[0])
+            if sim and sim[0][0] >= 0.6 and (len(sim) == 1 or sim[0][0] - sim[1][0] >= 0.12):
+                cands = [sim[0][1]]
+                how = f"similarity {sim[0][0]:.2f}, its own body is analysed"
         if len(cands) != 1:
             continue
         d = cands[0]
@@ -1076,7 +1086,7 @@ def restore_nested_names(m, sources: Dict[str, dict]) -> None:
             if isinstance(x, ast.Name) and x.id == old:
                 x.id = name
         d.node.name = name
-        m.log.append(f"{outer_q}: nested function {old} is the reference closure {name} under a new name (bodies unify): name restored")
+        m.log.append(f"{outer_q}: nested function {old} is the reference closure {name} under a new name ({how}): name restored")
         changed = True
     if changed:
         m.defs = enumerate_defs(m.modname, m.tree)
@@ -1239,10 +1249,10 @@ def _apply_successor(pkg, qual, entry, kfn, nmod, nd: Def) -> bool:
     pure = _same_signature(plan) and not u.attr_map
     rewrites = []
     for (m, parent, fld, idx, v, kind) in _references(pkg, plan):
-        if _inside(v, nd.node):
-            continue
         rw = _rewrite_ref(plan, parent, v, kind, pure)
         if rw is None:
+            if _inside(v, nd.node):
+                continue
             return False
         rewrites.append((parent, v, rw[0], rw[1]))
     # the definition: N's own code under K's name, with the identified names spelled as in K
